@@ -324,9 +324,10 @@ func RunWorker(p *Prop, tier, variant string, shard, nshards int, out string, bu
 			os.Exit(2)
 		}
 	}()
-	if p.Risky {
-		w.curFile, _ = os.Create(out + ".cur")
-	}
+	// the running choice vector is always recorded in a side file so that a
+	// fatal runtime error (memory corruption, out of memory) can be
+	// attributed to the case that was executing
+	w.curFile, _ = os.Create(out + ".cur")
 	if g := os.Getenv("VERIF_GOLDEN"); g != "" {
 		if b, err := os.ReadFile(g); err == nil {
 			json.Unmarshal(b, &w.golden)
